@@ -95,6 +95,10 @@ def program_list(tier):
     progs.append(("concatenate-xr", (2,), ("d0",)))
     progs.append(("concatenate-xr", (3,), ("d0",)))
     progs.append(("expand-inner", (2,), ("d0",), (2, 1)))
+    progs.append(("stack-twice", (2,), ("d0",)))
+    # more than ten members along the combined dimension (their positions are named input0 .. input10)
+    progs.append(("concatenate", (11,), ("d0",), "d0", 0, False))
+    progs.append(("stack", (11,), ("d0",), "d0", 0, False))
     progs.append(("expand-two-axes", (2,), ("d0",), (2, 3)))
     progs.append(("expand-two-axes", (2,), ("d0",), (2, 2)))
     progs.append(("expand-inner", (2,), ("d0",), (3, 1)))
@@ -296,6 +300,16 @@ def build_and_eval(prog):
         act = apply_guarded("concatenate", lambda: A.action.concatenate(dims[0], backend_kwargs={"dim": "i"}))
         want = {(): np.concatenate([raw[(k,)] for k in range(shape[0])], axis=0)}
         return finish(act, want, (), coords)
+    if kind == "stack-twice":
+        # two results built from the same sources before either is evaluated: stacked along axis 1, and along the default axis
+        first = apply_guarded("stack", lambda: A.action.stack(dims[0], axis=1))
+        second = apply_guarded("stack", lambda: A.action.stack(dims[0]))
+        group = [vals[(k,)] for k in range(shape[0])]
+        r0 = finish(first, {(): np.stack(group, axis=1)}, (), coords)
+        r1 = finish(second, {(): np.stack(group, axis=0)}, (), coords)
+        if r0[0] != r0[2] or r0[1] != r0[3]:
+            raise Violated("dims-differ-from-documented", f"{r0[0]} {r0[1]} vs {r0[2]} {r0[3]}")
+        return r1[0], r1[1], r1[2], r1[3], r0[4] + r1[4]
     if kind == "expand-two-axes":
         # the same action expanded along its first internal axis, then (in the same process) along its last one, counted from the end
         inner = prog[3]
